@@ -199,13 +199,13 @@ def write_evidence(prop, tier, seed, ctx, prep, obligations, wall, nviol, extra=
           'assumptions': TRUSTED_BASE, 'wall_s': round(wall, 2), 'violations': nviol}
     os.makedirs(os.path.join(VERIF, 'evidence'), exist_ok=True)
     tmp = os.path.join(VERIF, 'evidence', prop + '.json.tmp')
-    json.dump(ev, open(tmp, 'w'), indent=1, ensure_ascii=False, default=str)
+    json.dump(ev, open(tmp, 'w'), indent=1, default=str)
     os.replace(tmp, os.path.join(VERIF, 'evidence', prop + '.json'))
 
 def write_replay(prop, seed, data):
     os.makedirs(os.path.join(VERIF, 'replays'), exist_ok=True)
     path = os.path.join(VERIF, 'replays', '%s-%d.json' % (prop, seed))
-    json.dump(data, open(path, 'w'), indent=1, ensure_ascii=False, default=str)
+    json.dump(data, open(path, 'w'), indent=1, default=str)
     return os.path.relpath(path, VERIF)
 
 def main_check(prop, tier, seed, replay=None):
